@@ -1,9 +1,153 @@
 import Driver.Util
+import Lattigo.Model.RLWE
 
+/-
+  Line-protocol handler of property C03 (encryption / decryption / key generation).
+  Every line carries `n= ci= q= p= maxl= xe=` followed by op-specific `key=value` tokens; polynomials
+  are matrices of canonical rows (coefficient domain, Montgomery factor kept), lists of polynomials are
+  joined by `|`.
+
+    gensk  draw=                                   -> skq= skp=
+    genpk  aq= ap= e= skq= skp=                    -> pk0q= pk0p= pk1q= pk1p=
+    enc    key=sk|pk|none deg= lc= cntt= cmont= cmeta= old= haspt=0|1 [lp= pntt= pmont= pmeta= pt=]
+           sk: a= e0= skq= skp=     pk: u= e0= e1= pk0q= pk0p= pk1q= pk1p=
+                                                   -> ok lvl= ntt= mont= meta= ct=  | err | panic
+    dec    lc= lpt= ntt= mont= meta= ct= skq= skp= -> ok lvl= ntt= mont= meta= pt=  | panic
+-/
 namespace Driver.C03
-open Driver
+open Driver Lattigo Lattigo.RLWE
 
-/-- stub: replaced by the property's real handler -/
-def handle (_toks : List String) : String := badOp
+structure Hdr where
+  n : Nat
+  ci : Bool
+  q : List Nat
+  p : List Nat
+  maxl : Nat
+  xe : RQ.XeKind
+
+def getNat (toks : List String) (k : String) : Option Nat := (kv? toks k).bind (·.toNat?)
+def getBool (toks : List String) (k : String) : Option Bool := (getNat toks k).map (· != 0)
+def getVec (toks : List String) (k : String) : Option (List Nat) := (kv? toks k).bind parseVec?
+def getMat (toks : List String) (k : String) : Option (List (List Nat)) := (kv? toks k).bind parseMat?
+
+def parseHdr (toks : List String) : Option Hdr := do
+  let n ← getNat toks "n"
+  let ci ← getBool toks "ci"
+  let q ← getVec toks "q"
+  let p ← getVec toks "p"
+  let maxl ← getNat toks "maxl"
+  let xe ← match kv? toks "xe" with
+    | some "g" => some RQ.XeKind.gauss
+    | some "tp" => some RQ.XeKind.ternaryP
+    | some "th" => some RQ.XeKind.ternaryH
+    | _ => none
+  some { n, ci, q, p, maxl, xe }
+
+/-- a polynomial whose rows are the first rows of the chain `qs` -/
+def mkRQ (ci : Bool) (qs : List Nat) (m : List (List Nat)) : RQ :=
+  ⟨ci, { qs := qs.take m.length, c := m }⟩
+
+def getQ (h : Hdr) (toks : List String) (k : String) : Option RQ := (getMat toks k).map (mkRQ h.ci h.q)
+def getP (h : Hdr) (toks : List String) (k : String) : Option RQ := (getMat toks k).map (mkRQ h.ci h.p)
+
+def parsePolys (h : Hdr) (s : String) : Option (List RQ) :=
+  (s.splitOn "|").mapM fun t => (parseMat? t).map (mkRQ h.ci h.q)
+
+def showPolys (l : List RQ) : String := "|".intercalate (l.map fun x => showMat x.p.c)
+
+def b2s (b : Bool) : String := if b then "1" else "0"
+
+def zeroRQ (h : Hdr) (l : Nat) : RQ := ⟨h.ci, RPoly.zero (h.q.take (l + 1)) h.n⟩
+
+def handleGenSk (h : Hdr) (toks : List String) : Option String := do
+  let draw ← getQ h toks "draw"
+  let sk : RQ := genSecretKey RQ.mont (RQ.extSmall h.p) draw
+  let nQ := draw.p.c.length
+  some s!"skq={showMat (sk.p.c.take nQ)} skp={showMat (sk.p.c.drop nQ)}"
+
+def handleGenPk (h : Hdr) (toks : List String) : Option String := do
+  let aq ← getQ h toks "aq"
+  let ap ← getP h toks "ap"
+  let e ← getQ h toks "e"
+  let skq ← getQ h toks "skq"
+  let skp ← getP h toks "skp"
+  let (c0, c1) := genPublicKey RQ.mont (RQ.extSmall h.p) (RQ.joinQP aq ap) e (RQ.joinQP skq skp)
+  let nQ := aq.p.c.length
+  some (s!"pk0q={showMat (c0.p.c.take nQ)} pk0p={showMat (c0.p.c.drop nQ)} " ++
+        s!"pk1q={showMat (c1.p.c.take nQ)} pk1p={showMat (c1.p.c.drop nQ)}")
+
+def handleEnc (h : Hdr) (toks : List String) : Option String := do
+  let keyS ← kv? toks "key"
+  let lc ← getNat toks "lc"
+  let cntt ← getBool toks "cntt"
+  let cmont ← getBool toks "cmont"
+  let cmeta ← kv? toks "cmeta"
+  let old ← (kv? toks "old").bind (parsePolys h)
+  let haspt ← getBool toks "haspt"
+  let ct : Ct RQ String := { value := old, md := { pt := cmeta, isNTT := cntt, isMont := cmont } }
+  let (pt, lp) ← if haspt then do
+      let lp ← getNat toks "lp"
+      let pntt ← getBool toks "pntt"
+      let pmont ← getBool toks "pmont"
+      let pmeta ← kv? toks "pmeta"
+      let v ← getQ h toks "pt"
+      some (some ({ value := v, md := { pt := pmeta, isNTT := pntt, isMont := pmont } } : Pt RQ String), some lp)
+    else some (none, none)
+  let level := match lp with
+    | some lp => min lp lc
+    | none => lc
+  let z := zeroRQ h level
+  let (key, draws) ← match keyS with
+    | "none" => some (RQ.Key.none, ({ a := z, u := z, e0 := z, e1 := z, xe := h.xe, maxLevel := h.maxl } : RQ.Draws))
+    | "sk" => do
+        let a ← getQ h toks "a"
+        let e0 ← getQ h toks "e0"
+        let skq ← getQ h toks "skq"
+        some (RQ.Key.sk skq, { a := a, u := z, e0 := e0, e1 := z, xe := h.xe, maxLevel := h.maxl })
+    | "pk" => do
+        let u ← getQ h toks "u"
+        let e0 ← getQ h toks "e0"
+        let e1 ← getQ h toks "e1"
+        let pk0q ← getQ h toks "pk0q"
+        let pk0p ← getP h toks "pk0p"
+        let pk1q ← getQ h toks "pk1q"
+        let pk1p ← getP h toks "pk1p"
+        some (RQ.Key.pk pk0q pk0p pk1q pk1p, { a := z, u := u, e0 := e0, e1 := e1, xe := h.xe, maxLevel := h.maxl })
+    | _ => none
+  match RQ.encryptAt key (!h.p.isEmpty) (h.p.headD 1) lc lp draws pt ct with
+  | .err => some "err"
+  | .panic => some "panic"
+  | .ok (l, r) =>
+    some s!"ok lvl={l} ntt={b2s r.md.isNTT} mont={b2s r.md.isMont} meta={r.md.pt} ct={showPolys r.value}"
+
+def handleDec (h : Hdr) (toks : List String) : Option String := do
+  let lc ← getNat toks "lc"
+  let lpt ← getNat toks "lpt"
+  let ntt ← getBool toks "ntt"
+  let mont ← getBool toks "mont"
+  let md ← kv? toks "meta"
+  let cts ← (kv? toks "ct").bind (parsePolys h)
+  let skq ← getQ h toks "skq"
+  let ct : Ct RQ String := { value := cts, md := { pt := md, isNTT := ntt, isMont := mont } }
+  match RQ.decryptAt skq lc lpt ct with
+  | .err => some "err"
+  | .panic => some "panic"
+  | .ok (l, r) =>
+    some s!"ok lvl={l} ntt={b2s r.md.isNTT} mont={b2s r.md.isMont} meta={r.md.pt} pt={showMat r.value.p.c}"
+
+def handle (toks : List String) : String :=
+  match toks with
+  | op :: rest =>
+    match parseHdr rest with
+    | none => badOp
+    | some h =>
+      let r := match op with
+        | "gensk" => handleGenSk h rest
+        | "genpk" => handleGenPk h rest
+        | "enc" => handleEnc h rest
+        | "dec" => handleDec h rest
+        | _ => none
+      r.getD badOp
+  | _ => badOp
 
 end Driver.C03
